@@ -373,7 +373,8 @@ def record_time(ctx, objdir):
     for k in range(runs):
         nthr = rng.choice([1, 2, 3, 4])
         work = rng.choice([1, 2, 5])
-        with_fork = rng.random() < 0.4
+        with_fork = rng.random() < 0.4 and k >= 2 and k % 2 == 0   # option-free runs only (see ropts below): the harness
+        #                                                  locates the child's inherited frames by the fork() entry callback
         funcs = rng.choice([None, None, ["mid"], ["leaf", "rec"], ["worker", "main", "nosuch"]])
         if funcs and with_fork:
             funcs = funcs + ["fork"]        # the harness locates the child's inherited frames by the fork() entry
@@ -385,9 +386,22 @@ def record_time(ctx, objdir):
         write_script(script, "py", funcs)
         d = os.path.join(root, "rec%d.data" % k)
         shutil.rmtree(d, ignore_errors=True)
+        # record-time options: the pairing clause must hold under every filter / trigger option set
+        # (the comparison with replay is made for the option-free runs only: record-time hooks see the calls
+        # before the time filter is applied)
+        ropts = rng.choice([[], [], ["-t", "1us"], ["-D", "3"], ["-F", "mid"], ["-N", "rec"], ["-F", "worker", "-N", "leaf"],
+                            ["--trace=off", "-T", "mid@trace_on"], ["-T", "rec@trace_off"],
+                            ["-T", "mid@trace_off", "-T", "leaf@trace_on"], ["-T", "mid@depth=1"], ["-C", "leaf"]])
+        if with_fork:
+            ropts = []
+        if k == 0:
+            ropts = ["--trace=off", "-T", "mid@trace_on"]      # witness of the repaired defect 3895699
+        if k == 1:
+            ropts = ["-T", "rec@trace_off"]
         rc, out, err = sh(["timeout", "60", uft, "record", "--no-pager", "--no-event", "--libmcount-path=" + objdir,
-                           "-d", d, "-S", script, exe], timeout=90, env={"PYTHONPATH": os.path.join(objdir, "python")})
-        meta = {"threads": nthr, "work": work, "fork": with_fork, "funcs": funcs}
+                           "-d", d, "-S", script] + ropts + [exe], timeout=90,
+                          env={"PYTHONPATH": os.path.join(objdir, "python")})
+        meta = {"threads": nthr, "work": work, "fork": with_fork, "funcs": funcs, "record_options": ropts}
         if rc != 0:
             ctx.violation("uftrace record -S failed (rc=%d): %s" % (rc, (out + err)[-300:]), {"record_time": meta}, True)
             continue
@@ -419,7 +433,7 @@ def record_time(ctx, objdir):
             elif c[0] == "X":
                 got.setdefault(inv_t[c[1]], []).append("X " + inv_n[c[6]])
         want = {t: ns for t, ns in want.items() if ns}
-        same = (got == want)
+        same = (got == want) or bool(ropts)
         # a forked child continues on its parent's stack: the calls open in the parent when it
         # entered fork() are the child's inherited frames (closed by exits without entries)
         inits = {}
@@ -441,7 +455,7 @@ def record_time(ctx, objdir):
                                                  for t, st in inits.items()),
                                        "; ".join(coq_cb(c) for c in cbs2)))
         metas.append((meta, ok_shape, same, got, want))
-        ctx.case(key=("record", k, repr(meta)), tags=["record-time", "threads=%d" % nthr] + (["fork"] if with_fork else [])
+        ctx.case(key=("record", k, repr(meta)), tags=["record-time", "threads=%d" % nthr, "ropts:" + (" ".join(o for o in ropts if o.startswith("-")) or "none")] + (["fork"] if with_fork else [])
                  + (["UFTRACE_FUNCS"] if funcs else []), size=len(inner))
     if not terms:
         return
